@@ -57,7 +57,7 @@ func (p *Pair) Exec(ev M) (bool, M, string) {
 		case "InitiateTokenDeposit":
 			if absx.Int(e["b"]) == 1 {
 				v := absx.Map(o.Resp["ev"])
-				p.Deps = append(p.Deps, M{"seq": v["seq"], "from": v["from"], "to": v["to"], "l1denom": v["l1denom"], "l2denom": v["l2denom"], "amt": v["amt"]})
+				p.Deps = append(p.Deps, M{"seq": v["seq"], "from": v["from"], "to": v["to"], "l1denom": v["l1denom"], "l2denom": v["l2denom"], "amt": v["amt"], "data": v["data"]})
 			}
 		case "ProposeOutput":
 			if absx.Int(e["b"]) == 1 {
@@ -85,12 +85,29 @@ func (p *Pair) Exec(ev M) (bool, M, string) {
 		p.Wds = append(p.Wds, M{"seq": v["seq"], "from": v["from"], "to": v["to"], "denom": v["denom"], "base": v["base"], "amt": v["amt"]})
 	case "FinalizeTokenDeposit":
 		if absx.Str(o.Resp["result"]) == "SUCCESS" {
+			for _, h := range absx.List(o.Resp["hookWds"]) {
+				wd := absx.Map(h)
+				p.Wds = append(p.Wds, M{"seq": wd["seq"], "from": wd["from"], "to": wd["to"], "denom": wd["denom"], "base": wd["base"], "amt": wd["amt"]})
+			}
 			if wd := absx.Map(o.Resp["wd"]); absx.Bool(wd["some"]) {
 				p.Wds = append(p.Wds, M{"seq": wd["seq"], "from": wd["from"], "to": wd["to"], "denom": wd["denom"], "base": wd["base"], "amt": wd["amt"]})
 			}
 		}
 	}
 	return true, o.Resp, ""
+}
+
+// HookOf is Bridge!HookOf: the L2 transaction a deposit's payload name stands for.
+func HookOf(d M) M {
+	data, to := absx.Str(d["data"]), absx.Str(d["to"])
+	if data == "p0" || data == "" || (to != "u1" && to != "u2" && to != "u3") {
+		return M{"kind": "none", "signer": "", "msgs": []any{}}
+	}
+	msgs := []any{M{"kind": "withdraw", "to": d["from"], "denom": d["l2denom"], "amt": d["amt"]}}
+	if data == "hwf" {
+		msgs = append(msgs, M{"kind": "send", "to": "panic", "denom": d["l2denom"], "amt": int64(1)})
+	}
+	return M{"kind": "msgs", "signer": to, "msgs": msgs}
 }
 
 func (p *Pair) Project() M {
